@@ -364,3 +364,12 @@ def gen_sparse_layout(r, max_size=64 << 20, max_segs=6, align=True, min_hole=1 <
         size = r.choice([0, min_hole, 5 * min_hole + 17])
     size = min(size, max(max_size, size))
     return size, segs
+
+
+def fix_mtimes(spec, base=1_600_000_000_000_000_000):
+    """Give every regular file without an explicit mtime a deterministic one (so that runs in different
+    sandboxes are comparable)."""
+    for i, e in enumerate(spec):
+        if e["k"] == "f" and "mtime_ns" not in e:
+            e["mtime_ns"] = base + i * 1_000_000_007
+    return spec
